@@ -1,5 +1,5 @@
 ------------------------------ MODULE WiresGen -------------------------------
-(* Generator for C45 (REPLAY).  One behaviour per case: Init picks a case, Emit prints the case and    *)
+(* Generator for C45 (REPLAY).  One behaviour per case: Init/Pick choose a case, Emit prints the case and *)
 (* the expected outcome computed by WiresSet; the invariant Laws checks the algebraic laws of the      *)
 (* specification on every case.  Labels are ids 1..NL; a Wires object is a duplicate-free sequence.    *)
 (*   op = "new"    : Wires(a) for EVERY sequence a up to MaxNew (with duplicates: must be rejected)    *)
@@ -12,7 +12,7 @@ CONSTANTS NL, MaxLen, NL3, MaxLen3, MaxNew,
           Keys,        \* sequence of sort keys, one per Python label table
           IdxVals,     \* positions tried by subset
           Maps         \* set of wire maps
-VARIABLES c, done
+VARIABLES c, ph
 
 L == 1..NL
 AllSeqs(m) == UNION {[1..k -> L] : k \in 0..m}
@@ -20,13 +20,20 @@ Wset(m) == {s \in AllSeqs(m) : DupFree(s)}
 Wset3 == {s \in UNION {[1..k -> 1..NL3] : k \in 0..MaxLen3} : DupFree(s)}      \* operands of the three-object helpers
 IdxSeqs == UNION {[1..k -> IdxVals] : k \in 0..2}
 Case(op, a, b, cc, idx, per, m) == [op |-> op, a |-> a, b |-> b, c |-> cc, idx |-> idx, per |-> per, m |-> m]
-Cases == {Case("new", a, <<>>, <<>>, <<>>, FALSE, <<>>) : a \in AllSeqs(MaxNew)}
-    \cup {Case("pair", a, b, <<>>, <<>>, FALSE, <<>>) : a \in Wset(MaxLen), b \in Wset(MaxLen)}
-    \cup {Case("triple", a, b, cc, <<>>, FALSE, <<>>) : a \in Wset3, b \in Wset3, cc \in Wset3}
-    \cup {Case("sub", a, <<>>, <<>>, i, p, <<>>) : a \in Wset(MaxLen), i \in IdxSeqs, p \in BOOLEAN}
-    \cup {Case("map", a, <<>>, <<>>, <<>>, FALSE, m) : a \in Wset(MaxLen), m \in Maps}
-
-Init == c \in Cases /\ done = FALSE
+\* Two-level enumeration: Init picks the operation and its first operand (few initial states, computed sequentially by TLC),
+\* Pick chooses the remaining operands (explored by all workers in parallel), Emit prints the case.
+E == <<>>
+WL == Wset(MaxLen)
+Init == /\ ph = 0
+        /\ \/ \E a \in AllSeqs(MaxNew) : c = Case("new", a, E, E, E, FALSE, E)
+           \/ \E a \in WL, op \in {"pair", "sub", "map"} : c = Case(op, a, E, E, E, FALSE, E)
+           \/ \E a \in Wset3 : c = Case("triple", a, E, E, E, FALSE, E)
+Pick == /\ ph = 0 /\ ph' = 1
+        /\ \/ c.op = "new" /\ c' = c
+           \/ c.op = "pair" /\ \E b \in WL : c' = [c EXCEPT !.b = b]
+           \/ c.op = "triple" /\ \E b \in Wset3, cc \in Wset3 : c' = [c EXCEPT !.b = b, !.c = cc]
+           \/ c.op = "sub" /\ \E i \in IdxSeqs, p \in BOOLEAN : c' = [c EXCEPT !.idx = i, !.per = p]
+           \/ c.op = "map" /\ \E m \in Maps : c' = [c EXCEPT !.m = m]
 
 ExpNew(a) == [ok |-> DupFree(a), seq |-> IF DupFree(a) THEN a ELSE <<>>]
 ExpPair(a, b) ==
@@ -49,10 +56,10 @@ Exp(cs) == CASE cs.op = "new"    -> ExpNew(cs.a)
              [] cs.op = "sub"    -> ExpSub(cs.a, cs.idx, cs.per)
              [] cs.op = "map"    -> ExpMap(cs.a, cs.m)
 
-Emit == ~done /\ done' = TRUE /\ c' = c /\ PrintT(ToJson([c |-> c, exp |-> Exp(c)]))
-Next == Emit
+Emit == ph = 1 /\ ph' = 2 /\ c' = c /\ PrintT(ToJson([c |-> c, exp |-> Exp(c)]))
+Next == Pick \/ Emit
 
-Laws == done \/
+Laws == ph # 1 \/
         CASE c.op = "pair"   -> LawPair(c.a, c.b) /\ \A k \in 1..Len(Keys) : LawSorted(c.a, c.b, Keys[k])
           [] c.op = "triple" -> LawTriple(c.a, c.b, c.c)
           [] c.op = "sub"    -> LawSubset(c.a, c.idx, c.per)
